@@ -427,6 +427,14 @@ class ExecBase:
             return self.inline_contextmanager(st, cm, target, body)
         if isinstance(cm, VRef) and isinstance(st.deref(cm), HCell) and st.deref(cm).kind == "Lock":
             return self.with_lock(st, cm, target, body)
+        if isinstance(cm, VConst) and isinstance(cm.py, tuple) and cm.py and cm.py[0] == "suppress":
+            out = []
+            for s, o in self.exec_block(body, st):
+                if isinstance(o, Raised) and any(self.exc_matches(o.exc, t) for t in cm.py[1]):
+                    out.append((s, None))
+                else:
+                    out.append((s, o))
+            return out
         raise Unsupported(f"with-statement over {cm!r} at line {node.lineno}")
 
     def with_lock(self, st, cm, target, body):
